@@ -206,6 +206,8 @@ Proof.
   - unfold do_next. destruct (get_job _ j) as [x|]; [|reflexivity].
     destruct (negb (is_imap x)); [reflexivity|].
     destruct (items x); [destruct (okey_eqb _ _)|]; reflexivity.
+  - unfold do_join_shutdown. destruct (wlist _); cbn [fst]; [reflexivity|].
+    unfold join_exited. destruct (filter _ (rev _)); reflexivity.
 Qed.
 
 (* ------------------------------------------------------------ C11 at pool level *)
@@ -383,6 +385,8 @@ Proof.
     destruct (negb (is_imap x)); [exact H|].
     destruct (items x); [destruct (okey_eqb _ _)|]; exact H.
   - apply (sem_do_tick_close (with_sigs s [])). exact H.
+  - unfold do_join_shutdown. destruct (wlist _); cbn [fst]; [exact H|].
+    rewrite sem_join_exited. exact H.
 Qed.
 
 Lemma sem_init_ok c : 0 <= c_n c -> SInv (sem (init c)).
@@ -444,4 +448,24 @@ Proof.
   destruct (repopulate (S k) 0 codes s1) as [s2 r]. destruct r; try discriminate.
   intros H _. inversion H; subst s'. unfold release_n, do_close.
   destruct (pstate s2 =? 0) eqn:Ep; cbn [pstate with_sem with_pstate]; lia.
+Qed.
+
+(* ------------------------------------------------------------ the drain loop of the result handler *)
+(* _join_exited_workers(shutdown=True) treats every job exactly as a supervision pass does --
+   also when no worker is left and it ends by raising WorkersJoined: the lost-worker deadlines of
+   C04 are enforced on a closed pool that has lost its last worker *)
+Theorem join_shutdown_jobs s : jobs (fst (do_join_shutdown s)) = jobs (fst (do_tick s)).
+Proof.
+  unfold do_join_shutdown, do_tick.
+  assert (Hj : jobs (fst (join_exited s)) =
+               match wlist s with [] => jobs (mark_all_lost s) | _ => jobs (fst (join_exited s)) end).
+  { destruct (wlist s) eqn:Ew; [|reflexivity]. unfold join_exited.
+    assert (Hw : wlist (mark_all_lost s) = []) by (rewrite <- Ew; reflexivity).
+    rewrite Hw. reflexivity. }
+  destruct (join_exited s) as [s1 codes] eqn:Ej. cbn [fst] in Hj.
+  pose proof (sj_repopulate (Z.to_nat (nprocs s1 - Z.of_nat (length (wlist s1)))) 0 codes s1) as H1.
+  destruct (repopulate _ 0 codes s1) as [s2 r]. cbn [fst] in H1. unfold same_jobs in H1.
+  assert (Hres : jobs (fst (match r with RNone => (release_n s2 (length codes), RNone) | _ => (s2, r) end)) = jobs s1).
+  { destruct r; cbn [fst]; exact H1. }
+  rewrite Hres, Hj. destruct (wlist s); reflexivity.
 Qed.
